@@ -101,6 +101,11 @@ impl<'a, H> PacketBuffer<'a, H> {
                 // ring buffer.
                 return Err(Full);
             } else {
+                // The padding and the packet need one metadata slot each; refuse
+                // before enqueueing a padding that no packet would follow.
+                if self.metadata_ring.window() < 2 {
+                    return Err(Full);
+                }
                 // Add padding to the end of the ring buffer so that the
                 // contiguous window is at the beginning of the ring buffer.
                 *self.metadata_ring.enqueue_one()? = PacketMetadata::padding(contig_window);
@@ -151,6 +156,11 @@ impl<'a, H> PacketBuffer<'a, H> {
                 // ring buffer.
                 return Err(Full);
             } else {
+                // The padding and the packet need one metadata slot each; refuse
+                // before enqueueing a padding that no packet would follow.
+                if self.metadata_ring.window() < 2 {
+                    return Err(Full);
+                }
                 // Add padding to the end of the ring buffer so that the
                 // contiguous window is at the beginning of the ring buffer.
                 *self.metadata_ring.enqueue_one()? = PacketMetadata::padding(contig_window);
